@@ -245,6 +245,14 @@ structure State where
   workers : List Worker
   did : DidState
   staking : StakingView
+  deriving DecidableEq, Repr, Inhabited
+
+/-- the whole system as a process sees it: the committed stores plus the one mutable package
+    variable of the code base (`x/node/keeper.sharesBeforeModified`). Message handlers and
+    blockers are functions of `State` only — they cannot observe `global` by construction; only
+    the staking hooks (`Model/Staking.lean`) take it as an extra argument. -/
+structure Sys where
+  st : State
   global : Dec
   deriving DecidableEq, Repr, Inhabited
 
